@@ -61,13 +61,19 @@ def gen_dataset(rng, raw=False):
         for c in cells:
             if rng.random() < 0.4:
                 c['vec'][rng.randrange(NG)] = rng.randint(2000, 6000)      # a highly expressed gene
+        if rng.random() < 0.3:
+            # fractional "counts" whose total per cell lies strictly between 0 and 1 (stored as floating point)
+            for c in rng.sample(cells, max(1, len(cells) // 3)):
+                c['vec'] = [rng.choice([0, 0.0625, 0.125, 0.25]) for _ in range(NG)]
+                if sum(c['vec']) == 0:
+                    c['vec'][0] = 0.125
         if NG >= 2 and rng.random() < 0.5:
             # one count in a cell of 999 999 counts: 1.000001 CPM, just above the "more than 1 CPM" threshold
             c = rng.choice(cells)
             c['vec'] = [0] * NG
             c['vec'][0], c['vec'][1] = 999998, 1
     par = [rng.randint(1, 2) for _ in range(NCl)]
-    return {'NF': NF, 'R': rng.randint(1, 6), 'P': rng.randint(1, 4), 'NCl': NCl, 'NG': NG, 'cells': cells,
+    ds = {'NF': NF, 'R': rng.randint(1, 6), 'P': rng.randint(1, 4), 'NCl': NCl, 'NG': NG, 'cells': cells,
             'par': par, 'raw': raw, 'enc': [rng.choice(['dense', 'csr', 'csc']) for _ in range(NF)],
             # three-level variant: class K -> super class par2[K-1]; class and super-class names are chosen
             # so that the order in which they are met walking the tree is not their alphabetical order
@@ -77,6 +83,9 @@ def gen_dataset(rng, raw=False):
             'copy_over': rng.random() < 0.3,
             # numeric type of the stored counts (raw input): 32-bit integers with counts in the thousands
             'dtype': rng.choice(['float64', 'float32', 'int32', 'uint32', 'int64']) if raw else 'float64'}
+    if raw and any(v != int(v) for c in cells for v in c['vec']):
+        ds['dtype'] = rng.choice(['float64', 'float32'])      # fractional values need a floating-point file
+    return ds
 
 
 def _write_files(ds, d, which=None, reverse=False):
